@@ -19,10 +19,10 @@ class P:
     pass
 
 
-def mk(meth, iters):
+def mk(meth, iters, scaled=False):
     o = P()
     ocp = Ocp(t0=0, T=1); o.ocp = ocp
-    o.x = ocp.state(); o.u = ocp.control(); o.p = ocp.parameter(); o.q = ocp.parameter()
+    o.x = ocp.state(scale=2) if scaled else ocp.state(); o.u = ocp.control(scale=4) if scaled else ocp.control(); o.p = ocp.parameter(); o.q = ocp.parameter()
     ocp.set_der(o.x, -o.x + o.u + o.p)
     ocp.add_objective(ocp.at_tf((o.x - o.q) ** 2) + ocp.sum(o.u ** 2) + ocp.integral((o.x - 1) ** 2))
     ocp.subject_to(ocp.at_t0(o.x) == o.p / 2)
@@ -52,7 +52,7 @@ def replay(rec):
     sc = rec['sc']; data = rec['data']
     args = sorted(sc['args'])
     try:
-        a = quiet(mk, sc['meth'], sc['iters'])
+        a = quiet(mk, sc['meth'], sc['iters'], sc.get('scaled', False))
         quiet(assign, a, sc['pre'])
         ocp = a.ocp
         ss = sc['meth'] == 'SS'     # under SingleShooting only the initial state is a decision variable
@@ -69,7 +69,7 @@ def replay(rec):
                   'gu': lambda: ca.DM.ones(1, N) * sc['vals']['gu']}
         ra = quiet(lambda: f(*[argval[n]() for n in args]))
         ra = [np.array(r).reshape(-1) for r in (ra if isinstance(ra, (list, tuple)) else [ra])]
-        b = quiet(mk, sc['meth'], sc['iters'])
+        b = quiet(mk, sc['meth'], sc['iters'], sc.get('scaled', False))
         quiet(assign, b, data)
         try:
             sol = quiet(b.ocp.solve)
